@@ -232,7 +232,7 @@ pub fn check_c09(case: &Case, st: &mut Stats) -> Verdict {
         steps.push(CursorStep { cur: 0, op: Op::Reset });
         steps.push(CursorStep { cur: 0, op: Op::Eq(B(q.clone())) });
     }
-    let cc = CursorCase { spec: c.spec.clone(), env: c.env.clone(), steps, fresh_each: false, v1: false };
+    let cc = CursorCase { spec: c.spec.clone(), env: c.env.clone(), steps, fresh_each: false, v1: false, sparse_hole: None };
     let env2 = crate::env::Env::new(c.env.clone());
     let mut tx2 = crate::exec::Tx::new(env2.clone());
     crate::exec::guarded(&mut tx2, |tx| crate::exec::exec_cursor(tx, &cc, old_bytes, &mut |_, _, _| {}));
@@ -248,7 +248,36 @@ pub fn check_c09(case: &Case, st: &mut Stats) -> Verdict {
 
 // ------------------------------------------------------------------------------------- C15
 
+/// Index-block landers: keys about as long as the block, so every index entry (key + 8-byte offset
+/// + framing + footer) sits within a few bytes of the block size at every level.
+fn gen_c15_lander(rng: &mut Rng) -> Case {
+    let b = match rng.below(3) {
+        0 => 1024,
+        1 => rng.urange(1024, 4096),
+        _ => rng.urange(16380, 17000),
+    };
+    let levels = *rng.pick(&[2u8, 3, 3, 4]);
+    let n = rng.urange(2, 14);
+    let mut keys = std::collections::BTreeSet::new();
+    for i in 0..n {
+        // 12 (footer: one offset + count) + varints + key + 8 (value) == b  <=>  key = b - 20 - varints
+        let vl = if b - 24 >= 16384 { 3 } else if b - 24 >= 128 { 2 } else { 1 };
+        let target = b - 20 - vl - 1;
+        let len = (target as i64 + rng.range(0, 6) as i64 - 3).max(1) as usize;
+        let mut k = vec![0x41u8; len];
+        let tag = (i as u32).to_be_bytes();
+        k[..4.min(len)].copy_from_slice(&tag[..4.min(len)]);
+        keys.insert(k);
+    }
+    let ents = keys.into_iter().map(|k| (B(k), B(vec![7u8; 0]))).collect();
+    let knobs = Knobs { codec: 0, level: 0, block_size: Some(b), interval: *rng.pick(&[None, Some(1)]), levels, ctor: 0, fin: 0 };
+    Case::File(FileCase { spec: FileSpec { knobs, entries: Entries::Literal(ents) }, env: EnvPlan::whole(), v1: false })
+}
+
 pub fn gen_c15(rng: &mut Rng, tier: Tier) -> Case {
+    if rng.chance(1, 6) {
+        return gen_c15_lander(rng);
+    }
     let mut spec = if rng.chance(1, 2) { gen::gen_layered_spec(rng, tier) } else { gen::gen_file_spec(rng, tier, false) };
     if rng.chance(1, 3) {
         spec.knobs.interval = Some(1);
@@ -676,6 +705,16 @@ fn gen_open_string(rng: &mut Rng) -> Vec<u8> {
 
 // ------------------------------------------------------------------------------------- C10
 
+/// One case in `one_in`: the root index block lives behind a hole that pushes it around or beyond
+/// the 4 GiB line (offsets that no longer fit 32 bits).
+pub fn gen_hole(rng: &mut Rng, one_in: u64) -> Option<u64> {
+    if rng.chance(1, one_in) {
+        Some(*rng.pick(&[(1u64 << 32) - 4096, (1 << 32) - 1, 1 << 32, (1 << 32) + (1 << 20), (1 << 33) + 12345, 1 << 40]))
+    } else {
+        None
+    }
+}
+
 pub fn gen_c10(rng: &mut Rng, tier: Tier) -> Case {
     let mut spec = gen::gen_file_spec(rng, tier, false);
     spec.knobs.levels = 0;
@@ -700,11 +739,13 @@ pub fn gen_c10(rng: &mut Rng, tier: Tier) -> Case {
                 };
                 steps.push(CursorStep { cur: 0, op });
             }
-            Case::Cursor(CursorCase { spec, env, steps, fresh_each: true, v1: true })
+            let sparse_hole = gen_hole(rng, 5);
+            Case::Cursor(CursorCase { spec, env, steps, fresh_each: true, v1: true, sparse_hole })
         }
         2 => {
             let steps = crate::props_cursor::gen_history(rng, &keys, 80, 40);
-            Case::Cursor(CursorCase { spec, env, steps, fresh_each: false, v1: true })
+            let sparse_hole = gen_hole(rng, 5);
+            Case::Cursor(CursorCase { spec, env, steps, fresh_each: false, v1: true, sparse_hole })
         }
         _ => {
             let queries = crate::props_iter::gen_queries(rng, &keys, 24, 2);
